@@ -123,8 +123,11 @@ def rule_sorts(ck):
     ratio = f"{iface}.remaining_amp_periods({p}) / {iface}.max_pilot_signal({p}.station_id)"
     ck.require(linear(body, norm=canon) == Lin({ratio: 1}), "C08.R1", f, body, ok="key = remaining_amp_periods / max_pilot",
                bad=f"the LRPT key is `{src(body, 100)}`; it must be remaining_amp_periods(ev) / max_pilot_signal(ev.station_id) (amp-periods, not kWh: voltages differ)", sink="lrpt:key")
-    check_units(ck, "C08.R1", repo.fn("largest_remaining_processing_time.remaining_processing_time"),
-                UNITS["largest_remaining_processing_time.remaining_processing_time"])
+    inner = repo.fn("largest_remaining_processing_time.remaining_processing_time", optional=True)
+    if inner is not None:         # the key written as a lambda is decided by the exact form above
+        check_units(ck, "C08.R1", inner, UNITS["largest_remaining_processing_time.remaining_processing_time"])
+    elif not isinstance(key, ast.Lambda):
+        raise AnalysisError("largest_remaining_processing_time: key function not found")
 
 
 def rule_queue_order(ck):
